@@ -1743,6 +1743,11 @@ impl<'a, 'b, W: Write> Serializer for &'a mut YamlSerializer<'b, W> {
         // If this variant follows a list dash, indent two levels under the dash (one for the element, one for the mapping).
         if let Some(d) = self.after_dash_depth.take() {
             depth_next = d + 2;
+            if self.indent_step == 1 {
+                // With a step of 1 two levels are exactly the two columns of "- ": the fields
+                // would start in the column of the variant name. Indent them one column more.
+                depth_next += 1;
+            }
             self.pending_inline_map = false;
         }
         Ok(StructVariantSer {
